@@ -358,3 +358,41 @@ dec_text_dyn!(c03_dyn_o_p0_be, 0, 7, true, Signature::ObjectPath, |t| crate::ref
     zvariant::Value::ObjectPath(p) => Some(p.as_str()),
     _ => None,
 });
+
+// ------------------------------------------------------------------ C01: non-ASCII text (length prefix counts bytes, not characters)
+macro_rules! enc_text_utf8 {
+    ($h:ident, $pos:expr, $be:expr) => {
+        #[kani::proof]
+        #[kani::unwind(9)]
+        #[kani::stub(alloc::fmt::format, no_format)]
+        #[kani::stub(<std::os::fd::OwnedFd as core::ops::Drop>::drop, no_close)]
+        fn $h() {
+            // one two-byte UTF-8 scalar (U+0080..U+07FF) followed by zero or one ASCII byte
+            let lead: u8 = kani::any();
+            let cont: u8 = kani::any();
+            let tail: u8 = kani::any();
+            kani::assume(lead >= 0xC2 && lead <= 0xDF && cont >= 0x80 && cont <= 0xBF && tail != 0 && tail < 0x80);
+            let with_tail: bool = kani::any();
+            let tb: &'static [u8; 3] = Box::leak(Box::new([lead, cont, tail]));
+            let tn = if with_tail { 3 } else { 2 };
+            let s: &'static str = unsafe { core::str::from_utf8_unchecked(&tb[..tn]) };
+            let be: bool = $be;
+            let mut buf = [0u8; 32];
+            let mut cur = Cursor::new(&mut buf[..]);
+            let r = unsafe { to_writer_for_signature(&mut cur, ctx($pos, be), Signature::Str, s) };
+            let mut m = Out::new($pos, be);
+            m.string(&tb[..tn]);
+            match &r {
+                Ok(w) => {
+                    kani::cover!(with_tail, "two characters, three bytes");
+                    assert!(w.size() == m.len, "non-ASCII text: encoded length differs from the D-Bus marshalling rules");
+                    assert!(same32(&buf, &model32(&m)), "non-ASCII text: the length prefix must count bytes, and all bytes must be written");
+                }
+                Err(_) => assert!(false, "encoding a well-typed value failed"),
+            }
+            core::mem::forget(r);
+        }
+    };
+}
+enc_text_utf8!(c01_enc_s_utf8_le, 1, false);
+enc_text_utf8!(c01_enc_s_utf8_be, 0, true);
